@@ -31,6 +31,7 @@ def base_tree(prior):
             o = E("d/s/big", "file", "OLD1", m=0o600, t="1111111111000000000"); o["meta"]["data"] = b"x" * 9000; fs.append(o)
             o = E("d/s/sub", "dir"); fs.append(o)
             o = E("d/s/sub/inner", "file", "OLD2", m=0o4711); o["meta"]["data"] = b"old"; fs.append(o)
+            o = E("d/s/sub/inner.~4~", "file", "OLD3"); o["meta"]["data"] = b"older"; fs.append(o)
     return fs
 
 def random_config(rr):
@@ -38,7 +39,7 @@ def random_config(rr):
     c = {"driver": rr.choice(["parfile", "parblock"]), "workers": rr.choice([1, 2, 4, 8]), "block": rr.choice([100, 1000, 4096, 1 << 20]),
          "noprogress": rr.random() < 0.2, "reflink": rr.choice(["auto", "never"]), "fsync": rr.random() < 0.5, "noperms": rr.random() < 0.3,
          "notimes": rr.random() < 0.3, "ownership": rr.random() < 0.4, "T": rr.random() < 0.25, "L": rr.random() < 0.2, "prior": prior,
-         "tdir": False, "backup": rr.choice(["none", "none", "numbered", "auto"]) if prior != "older" else "none",
+         "tdir": False, "backup": rr.choice(["none", "none", "numbered", "auto"]),
          "spelling": rr.choice(["s", "./s", "s/"]), "umask": rr.choice([0o022, 0o077, 0])}
     if prior and rr.random() < 0.3 and not c["T"]:
         c["tdir"] = True
@@ -107,10 +108,8 @@ def run(ctx, binary, owned, n, salt):
         ctx.traces += 1
         ctx.case(("combo", salt, i), True)
         found = set(nv["viol"]) | set(ev["viol"]) | ({"C10"} if sc["id"] in bad_meta else set())
-        if (o["exit"] == 0) != nv["expectOk"] and o["exit"] >= 0 and c["backup"] == "none":
+        if (o["exit"] == 0) != nv["expectOk"] and o["exit"] >= 0:
             ctx.drift.append({"id": sc["id"], "config": c, "exit": o["exit"], "model_expect_ok": nv["expectOk"], "stderr": o["_run"]["stderr"][-200:]})
-        if c["backup"] != "none":
-            found.discard("C02")       # the name-space model has no backups: the tree clause is not evaluated for these runs
         for cl in sorted(found):
             detail = {"kind": "combo", "config": c, "argv": o["_run"]["argv"], "exit": o["exit"], "ns": nv, "ev": ev, "meta": [(a, b) for a, b, _ in bad_meta.get(sc["id"], [])][:5],
                       "stderr": o["_run"]["stderr"][-300:]}
